@@ -95,7 +95,7 @@ func main() {
 	}
 	var jobs []job
 	if run.Quick() {
-		for _, c := range pickQuick(run.Rand("select"), all, 64) {
+		for _, c := range pickQuick(run.Rand("select"), all, 72) {
 			jobs = append(jobs, job{c, 0})
 			if staleShape(c) {
 				// the outcome of this shape depends on the order in which the tool visits the target's
@@ -164,6 +164,15 @@ func pickQuick(r *rand.Rand, all []combo, n int) []combo {
 			add(c)
 		}
 		if staleShape(c) {
+			add(c)
+		}
+		if c.Restart == "cut" && c.Src == "same" {
+			add(c)
+		}
+		if c.Pid == "nofields" && c.Cache == "natural" && (c.Src == "same" || c.Src == "failover-late") {
+			add(c) // no position, complete cached snapshot, the source still grants the cache's end
+		}
+		if c.Drop && c.Src == "failover-early" {
 			add(c)
 		}
 	}
@@ -244,6 +253,9 @@ func oneCase(run *harness.Run, key string, c combo, tmp string, n int) {
 	}
 	defer func() { cache.ch.Close() }()
 	cr.setCache(cache)
+	if c.Restart == "cut" {
+		cr.cutBeforeSetCheckpoint()
+	}
 	n0 := len(cr.tgt.Applied())
 	t1, err := cr.startTool(src1.Addr(), cache.ch)
 	if err != nil {
@@ -254,7 +266,13 @@ func oneCase(run *harness.Run, key string, c combo, tmp string, n int) {
 	h1live := p.H1.prefix(p.ID1, p.L1End)
 	s1 := cr.phase(t1, src1, h1live, p.B1, p.End1, "a", 0, n0, 0, 0)
 	judgeFirst(run, key, p, h1live, s1, cache)
-	if s1.Ended != "sentinel" {
+	if c.Restart == "cut" {
+		if s1.Ended != "cut" {
+			t1.stop()
+			run.Inconclusive("%s: the first session was not cut before its position was stored: %s", key, s1.Ended)
+			return
+		}
+	} else if s1.Ended != "sentinel" {
 		t1.stop()
 		run.Inconclusive("%s: session 1 did not complete: %s %s psync=%v", key, s1.Ended, s1.RunErr, psyncStrings(s1.Psync))
 		return
@@ -291,6 +309,9 @@ func oneCase(run *harness.Run, key string, c combo, tmp string, n int) {
 		reqFrom, psFrom := len(src1.Requests()), len(src1.Source().PsyncLog())
 		n0 = len(cr.tgt.Applied())
 		src1.Source().Reconfigure(p.sourceConfig(cr.psyncStamp))
+		if p.DropAfter > 0 {
+			src1.Source().DropReplicaAfter(p.DropAfter)
+		}
 		s2 = cr.phase(t1, src1, p.H2, p.LiveFrom, end2, "b", r.Intn(3), n0, reqFrom, psFrom)
 		t2 = t1
 	} else {
@@ -302,7 +323,15 @@ func oneCase(run *harness.Run, key string, c combo, tmp string, n int) {
 		}
 		nat := readPosition(cr.tgt)
 		cid, cl, crr, cro := cache.state([]string{p.ID1})
-		if nat.Absent || nat.Off != p.L1End || nat.ID != p.ID1 || cid != p.ID1 || crr != p.L1End || cl != p.B1 || (cro != p.B1 && cro != -1) {
+		if c.Restart == "cut" {
+			// natural state: snapshot replayed, DelCheckpoint done, SetCheckpoint never executed
+			cr.tgt.SetHooks(nil, nil, nil)
+			cr.abort = nil
+			if !nat.Absent || cid != p.ID1 || cl != p.B1 || crr < p.B1 || crr > p.L1End || (cro != p.B1 && cro != -1) {
+				run.Inconclusive("%s: state after the cut first session unexpected: pos %+v cache %s [%d,%d] rdb@%d", key, nat, short(cid), cl, crr, cro)
+				return
+			}
+		} else if nat.Absent || nat.Off != p.L1End || nat.ID != p.ID1 || cid != p.ID1 || crr != p.L1End || cl != p.B1 || (cro != p.B1 && cro != -1) {
 			run.Inconclusive("%s: natural state after session 1 unexpected: pos %+v cache %s [%d,%d] rdb@%d want [%d,%d] files %v psync %v", key, nat, short(cid), cl, crr, cro, p.B1, p.L1End,
 				listDir(cache.dir), psyncStrings(s1.Psync))
 			return
@@ -314,6 +343,11 @@ func oneCase(run *harness.Run, key string, c combo, tmp string, n int) {
 		}
 		// ---------------- mutate: target position
 		switch {
+		case p.CP.Absent && p.CP.Natural:
+			pre.PosAbsent = true
+		case p.CP.Absent && p.CP.KeepHash:
+			clearPositionFields(cr.tgt)
+			pre.PosAbsent = true
 		case p.CP.Absent:
 			clearPosition(cr.tgt)
 			pre.PosAbsent = true
@@ -369,6 +403,9 @@ func oneCase(run *harness.Run, key string, c combo, tmp string, n int) {
 		src2 = fakeredis.MustStart(fakeredis.Options{})
 		defer src2.Close()
 		src2.EnableSource(p.sourceConfig(cr.psyncStamp))
+		if p.DropAfter > 0 {
+			src2.Source().DropReplicaAfter(p.DropAfter)
+		}
 		n0 = len(cr.tgt.Applied()) // the start-up bookkeeping belongs to the judged log
 		t2, err = cr.startTool(src2.Addr(), cache.ch)
 		if err != nil {
@@ -415,7 +452,7 @@ func oneCase(run *harness.Run, key string, c combo, tmp string, n int) {
 
 	witness := func() map[string]any {
 		w := map[string]any{
-			"combination": c.Label(), "constructed": p.Constructed, "fresh_disk_object": p.FreshDisk, "new_history_has_boundary_at_P": p.Aligned, "new_master_behind_stored_position": p.Behind,
+			"combination": c.Label(), "constructed": p.Constructed, "source_cuts_first_replica_connection_after_bytes": p.DropAfter, "fresh_disk_object": p.FreshDisk, "new_history_has_boundary_at_P": p.Aligned, "new_master_behind_stored_position": p.Behind,
 			"first_id": p.ID1, "first_history": fmt.Sprintf("[%d,%d) live part ends %d", p.B1, p.H1.End(), p.L1End),
 			"source2": fmt.Sprintf("replid=%s replid2=%s switch_offset=%d (second_replid_offset=%d) history=[%d,%d) live from %d backlog_off(redis)=%d",
 				p.H2.ReplID, p.SrcID2, p.S, p.S+1, p.H2.Base, p.H2.End(), p.LiveFrom, p.BacklogOff),
